@@ -1237,6 +1237,129 @@ def fn_trace_bign(items):
                 viol.append(V('C15/trace/py/value/PauliPolynomial', [N], 'N=%d: PauliPolynomial.trace = %s, matrix trace %s' % (N, pt, (cs * truth).sum())))
     return {'n': n, 'nt': nt, 'viol': viol}
 
+# ---------------------------------------------------------------- wide registers: reduce / sums by a dictionary oracle
+def fn_reduce_wide(items):
+    """item = [pkg, N] (N = 5..9): polynomials whose terms are pairwise equal everywhere except at ONE qubit (for
+    every qubit position and every pair of letters there), plus exact repeats with other phases; reduce() and `a + b`
+    must merge exactly the equal strings.  Oracle: a dictionary string -> sum of c * i^p (no dense matrices)."""
+    from ..core import V
+    n = nt = 0
+    viol = []
+    IPW = (1, 1j, -1, -1j)
+    for pkg, N in items:
+        mkpoly = lib.POLY if pkg == 'py' else lib.tPOLY
+        eps = 1e-9 if pkg == 'py' else 1e-4
+        base = np.array([(1, 0), (0, 1), (1, 1), (0, 0), (1, 0), (1, 1), (0, 1), (0, 0), (1, 1)][:N], dtype=np.int64).reshape(-1)   # X Z Y I X Y Z I Y
+        LET = [(0, 0), (1, 0), (1, 1), (0, 1)]
+        for q in range(N):
+            gs, ps, cs = [], [], []
+            for k, l in enumerate(LET):
+                g = base.copy()
+                g[2 * q:2 * q + 2] = l
+                gs += [g, g.copy()]
+                ps += [k % 4, (k + 1 + q) % 4]
+                cs += [0.75 + k, (0.5 - 1.25j) * (q + 1)]
+            gs, ps, cs = np.array(gs), np.array(ps), np.array(cs, dtype=complex)
+            agg = {}
+            for g, p, c in zip(gs, ps, cs):
+                agg[g.tobytes()] = agg.get(g.tobytes(), 0) + c * IPW[p]
+            half = len(gs) // 2
+            for how in ('reduce', 'sum'):
+                try:
+                    if how == 'reduce':
+                        R = mkpoly(gs, ps, cs).reduce()
+                    else:
+                        R = mkpoly(gs[:half], ps[:half], cs[:half]) + mkpoly(gs[half:], ps[half:], cs[half:])
+                        R = R.reduce()
+                    rg, rp = lib.t2n(R.gs).astype(np.int64), lib.t2n(R.ps).astype(np.int64)
+                    rc = R.cs.detach().numpy() if hasattr(R.cs, 'detach') else np.asarray(R.cs)
+                except Exception as e:
+                    viol.append(V('C15/%s/wide/%s/raises-%s' % (pkg, how, type(e).__name__), [pkg, N], 'N=%d terms differing at qubit %d: %s raised %s: %s' % (N, q, how, type(e).__name__, e)))
+                    continue
+                n += 1
+                nt += 1
+                got = {}
+                for g, p, c in zip(rg, rp, rc):
+                    got[g.tobytes()] = got.get(g.tobytes(), 0) + complex(c) * IPW[int(p) % 4]
+                keys = set(agg) | set(got)
+                bad = [k for k in keys if abs(got.get(k, 0) - agg.get(k, 0)) > eps * 10]
+                if bad or len(rg) != len({g.tobytes() for g in rg}):
+                    kb = bad[0] if bad else None
+                    viol.append(V('C15/%s/wide/%s/value' % (pkg, how), [pkg, N],
+                                  'N=%d, 8 terms equal except at qubit %d: %s gives %d terms; %s' % (
+                                      N, q, how, len(rg), ('coefficient of %s is %s, the sum of its terms is %s' % (
+                                          ref.g_to_str(np.frombuffer(kb, dtype=np.int64)), got.get(kb, 0), agg.get(kb, 0))) if kb else 'repeated strings left')))
+    return {'n': n, 'nt': nt, 'viol': viol}
+
+
+# ---------------------------------------------------------------- arithmetic -> in-place operation -> arithmetic on ONE operand object
+def fn_live(items):
+    """item = [pkg, N, gi]: an operand object X (Pauli, PauliMonomial, PauliList element, PauliPolynomial) is used in
+    +, -, @ (both sides), scalar multiplication and negation; then X is rotated / transformed IN PLACE (rotate_by with
+    both signs of every generator class, masked rotate_by, transform_by) and used in the same expressions again.
+    Every value must equal the one computed with a FRESH object built from X's current arrays (dense matrices); a
+    converted form memoised on the object shows up here."""
+    from ..core import V
+    from .c01 import _dense
+    n = nt = 0
+    viol = []
+    for pkg, N, gi in items:
+        py = pkg == 'py'
+        P, POLY = (lib.P, lib.POLY) if py else (lib.tP, lib.tPOLY)
+        G = ref.all_g(N)
+        g0 = G[gi]
+        Q = POLY(G[[1, len(G) - 1]], np.array([0, 3]), [2.0, 0.5 - 1j])
+        Q1 = P(G[len(G) // 2], 1)
+
+        def uses(X):
+            out = {}
+            for nm, f in (('X+Q', lambda: X + Q), ('Q+X', lambda: Q + X), ('X-Q', lambda: X - Q), ('X@Q', lambda: X @ Q), ('Q@X', lambda: Q @ X),
+                          ('X@P', lambda: X @ Q1), ('P@X', lambda: Q1 @ X), ('2.5*X', lambda: 2.5 * X), ('-X', lambda: -X), ('X+1', lambda: X + 1),
+                          ('X/2', lambda: X / 2)):
+                try:
+                    out[nm] = _dense(f(), N)
+                except (NotImplementedError, TypeError, AttributeError):
+                    out[nm] = None            # expression not offered for this operand class
+            return out
+        kinds = [('Pauli', lambda g, p, c: P(g, p), lambda X: (lib.t2n(X.g), int(lib.t2n(X.p)), 1.0))]
+        if py:
+            kinds.append(('PauliMonomial', lambda g, p, c: lib.MONO(g, p, c), lambda X: (np.asarray(X.g), int(X.p), complex(X.c))))
+        kinds.append(('PauliPolynomial', lambda g, p, c: POLY(np.array([g, G[(gi + 1) % len(G)]]), np.array([p, (p + 1) % 4]), [c, 1.5]), None))
+        ops = []
+        for hg, hp in dom.hermitian_paulis(N, include_identity=False)[gi % 2::2]:
+            ops.append(('rotate_by(%s)' % ref.g_to_str(hg, hp), (lambda hg=hg, hp=hp: (lambda X: X.rotate_by(P(hg, hp))))()))
+        if N <= 2:
+            tN, sN = dom.valid_maps(N)[(gi * 37 + 5) % len(dom.valid_maps(N))]
+        else:
+            from .c04 import _scrambles
+            tN, sN = _scrambles(N)[gi % 3]
+        CMk = lib.CM if py else lib.tCM
+        ops.append(('transform_by', lambda X: X.transform_by(CMk(tN, sN))))
+        for cls, mk, parts in kinds:
+            for p0 in range(4):
+                for opn, op in ops:
+                    X = mk(g0, p0, 0.5 + 1j)
+                    uses(X)                                      # first round: fills whatever the object memoises
+                    try:
+                        op(X)
+                    except Exception:
+                        continue
+                    if cls == 'PauliPolynomial':
+                        fresh = POLY(lib.t2n(X.gs), lib.t2n(X.ps), X.cs.detach().numpy() if hasattr(X.cs, 'detach') else np.asarray(X.cs))
+                    else:
+                        fresh = mk(*parts(X))
+                    a, b = uses(X), uses(fresh)
+                    n += len(a)
+                    nt += len(a)
+                    for k in a:
+                        if (a[k] is None) != (b[k] is None) or (a[k] is not None and not np.allclose(a[k], b[k], atol=1e-5)):
+                            viol.append(V('C15/%s/live/%s/%s' % (pkg, cls, k), [pkg, N, gi],
+                                          '%s N=%d: %s %s used in arithmetic, then changed in place by %s: afterwards %s differs from the same expression with a fresh object holding the same arrays' % (
+                                              pkg, N, cls, ref.g_to_str(g0, p0), opn, k)))
+                            break
+    return {'n': n, 'nt': nt, 'viol': viol}
+
+
 def legs(tier):
     quick = tier == 'quick'
     out = []
@@ -1280,4 +1403,8 @@ def legs(tier):
     out.append(Leg('linear_torch', fn_linear, [['torch', N, s] for N in (1, 2) for s in range(len(linear_subjects(N, 'torch')))], chunk=1,
                    bound='torchclifford N<=2: as linear_py with the quick map menu'))
     out.append(Leg('trace_N3_N4', fn_trace_bign, [[3], [4]], chunk=1, bound='trace() of all strings x 4 phases at N=3,4 as Pauli / PauliMonomial / PauliList / PauliPolynomial (2^N vs 2N differ from N=3 on)'))
+    out.append(Leg('reduce_wide', fn_reduce_wide, [[pkg, N] for pkg in ('py', 'torch') for N in (5, 6, 7, 8, 9)], chunk=1, exhaustive=False, supplementary=True,
+                   bound='N=5..9, both packages: 8-term polynomials whose strings agree everywhere except at one qubit (every position, all four letters, repeats with other phases): reduce() and sum against a dictionary oracle'))
+    out.append(Leg('live_histories', fn_live, [[pkg, N, gi] for pkg in ('py', 'torch') for N in (1, 2) for gi in range(4 ** N)] + [[pkg, 3, gi] for pkg in ('py', 'torch') for gi in range(1, 64, 9)], chunk=2,
+                   bound='N<=2 every string x 4 phases (N=3: every 9th string): Pauli / PauliMonomial / PauliPolynomial used in 11 expressions, changed in place (every second Hermitian generator, one map), used again vs a fresh object'))
     return out
